@@ -95,6 +95,17 @@ func pureLibrary(full string) bool {
 
 func (g *FuncGen) execCall(instr ssa.Instruction, c *ssa.CallCommon, v ssa.Value) {
 	pos := instr.Pos()
+	var post []func()
+	g.copyOut = &post
+	defer func() {
+		g.copyOut = nil
+		if r := recover(); r != nil {
+			panic(r)
+		}
+		for _, f := range post {
+			f()
+		}
+	}()
 	// builtins
 	if b, ok := c.Value.(*ssa.Builtin); ok {
 		g.execBuiltin(b, c, v, pos)
@@ -172,6 +183,28 @@ func (g *FuncGen) argTerm(a ssa.Value) string {
 		switch ad.kind {
 		case aRefStruct, aArr, aHeapCell:
 			return ad.ref
+		case aCell, aGlobal:
+			// address of (part of) a local variable passed to a callee: copy-in / copy-out through a
+			// fresh heap object (sound when the callee does not retain the pointer)
+			pt := deref(a.Type())
+			if pt != nil && g.copyOut != nil {
+				if _, isArr := pt.Underlying().(*types.Array); !isArr {
+					g.assumptions["address of a local passed to a callee is modelled by copy-in/copy-out (callee must not retain it)"] = true
+					r := g.freshRef()
+					cur := g.load(ad)
+					if _, isS := isStruct(pt); isS {
+						cv := g.def("cin", g.sc.sortOf(pt), cur)
+						g.storeStruct(r, pt, cv)
+						*g.copyOut = append(*g.copyOut, func() { g.store(ad, g.loadStruct(g.st, r, pt)) })
+					} else {
+						k := g.sc.cellComp(pt)
+						g.update(k, fmt.Sprintf("(store %s %s %s)", g.get(g.st, k), r, cur))
+						*g.copyOut = append(*g.copyOut, func() { g.store(ad, fmt.Sprintf("(select %s %s)", g.get(g.st, k), r)) })
+					}
+					return r
+				}
+			}
+			return "0"
 		default:
 			// address of a field/element/local passed to a call: opaque token; callee effect handled by defaultCall
 			return "0"
@@ -343,6 +376,19 @@ func (g *FuncGen) applyContract(callee *ssa.Function, ct *Contract, sf *SpecFile
 	rn := resultNames(sig, ct)
 	for i, r := range res {
 		cxPost.vars[rn[i]] = sval{t: r, typ: sig.Results().At(i).Type(), kind: "val"}
+	}
+	for _, fv := range ct.Fresh {
+		if !(ct.Extern || ct.Trusted) {
+			unsup("fresh witnesses are only supported on extern/trusted contracts (%s)", ckey)
+		}
+		switch fv.Type {
+		case "intmap":
+			cxPost.vars[fv.Name] = sval{t: g.declare("wit:"+fv.Name, "(Array Int Int)"), kind: "intmap"}
+		case "int":
+			cxPost.vars[fv.Name] = sval{t: g.declare("wit:"+fv.Name, "Int"), kind: "int"}
+		default:
+			unsup("fresh witness type %s", fv.Type)
+		}
 	}
 	for _, e := range ct.Ensures {
 		g.assume(cxPost.assumeTerm(e.E))
